@@ -82,11 +82,21 @@ class Parser(BaseParser):
             for x in self.ignore:
                 m = match(x, stream, i)
                 if m:
-                    # Carry over any items still in the scan buffer, to past the end of the ignored items.
-                    delayed_matches[m.end()].extend([(item, i, None) for item in to_scan ])
+                    ends = [m.end()]
+                    if self.complete_lex:
+                        # Like for regular terminals, consider every shorter match of the ignored terminal
+                        s = m.group(0)
+                        for j in range(1, len(s)):
+                            m = match(x, s[:-j])
+                            if m and i + m.end() not in ends:
+                                ends.append(i + m.end())
 
-                    # If we're ignoring up to the end of the file, # carry over the start symbol if it already completed.
-                    delayed_matches[m.end()].extend([(item, i, None) for item in columns[i] if item.is_complete and item.s == start_symbol])
+                    for end in ends:
+                        # Carry over any items still in the scan buffer, to past the end of the ignored items.
+                        delayed_matches[end].extend([(item, i, None) for item in to_scan ])
+
+                        # If we're ignoring up to the end of the file, # carry over the start symbol if it already completed.
+                        delayed_matches[end].extend([(item, i, None) for item in columns[i] if item.is_complete and item.s == start_symbol])
 
             next_to_scan = self.Set()
             next_set = self.Set()
